@@ -1659,7 +1659,8 @@ def cases(tier, seed):
     for chunk in range(8 if thorough else 1):
         for j in range(slots):
             for endian in ("little", "big"):
-                yield {"kind": "real", "slot": j, "of": slots, "endian": endian, "chunk": chunk, "seqs": 5 if thorough else 1}
+                # the slot is rotated per chunk so that a large layout is not handled by the same shard every time
+                yield {"kind": "real", "slot": (j + 5 * chunk) % slots, "of": slots, "endian": endian, "chunk": chunk, "seqs": 5 if thorough else 1}
     n_syn, per = (1600, 20) if thorough else (96, 14)
     for k in range(n_syn):
         yield {"kind": "synthetic", "k": k, "seqs": per}
